@@ -11,6 +11,7 @@ import (
 	"math/rand"
 	"os"
 	"path/filepath"
+	"runtime"
 	"runtime/debug"
 	"strconv"
 	"strings"
@@ -231,6 +232,27 @@ func (r *Run) exec(sp Spec) {
 			if e := recover(); e != nil {
 				// a panic on the case goroutine itself
 				st := string(debug.Stack())
+				if strings.Contains(fmt.Sprint(e), "deadlock") {
+					// synctest: goroutines were left blocked in the bubble; show them
+					buf := make([]byte, 1<<20)
+					buf = buf[:runtime.Stack(buf, true)]
+					var keep []string
+					for _, g := range strings.Split(string(buf), "\n\n") {
+						if strings.Contains(g, "synctest bubble") {
+							keep = append(keep, g)
+						}
+					}
+					st = "LEFTOVER GOROUTINES:\n" + strings.Join(keep, "\n\n")
+					if len(st) > 12000 {
+						st = st[:12000]
+					}
+				}
+				if strings.Contains(fmt.Sprint(e), "main bubble goroutine has exited") {
+					// every oracle of the case had already run; goroutines left blocked at teardown do not decide
+					// any property: recorded, not judged
+					c.Inconclusive("goroutines left blocked in the bubble after the case: %.3000s", st)
+					return
+				}
 				sig := "panic/harness"
 				if strings.Contains(st, "github.com/celestiaorg/go-header") {
 					sig = "panic/" + sp.CrashSig
